@@ -12,6 +12,7 @@ import (
 	"strings"
 
 	"github.com/go-logr/logr"
+	corev1 "k8s.io/api/core/v1"
 	metav1 "k8s.io/apimachinery/pkg/apis/meta/v1"
 	"k8s.io/apimachinery/pkg/apis/meta/v1/unstructured"
 	"k8s.io/apimachinery/pkg/runtime"
@@ -73,6 +74,9 @@ const NS = "ns1"
 func Scheme() *runtime.Scheme {
 	s := runtime.NewScheme()
 	if err := corev1alpha1.AddToScheme(s); err != nil {
+		panic(err)
+	}
+	if err := corev1.AddToScheme(s); err != nil { // the remote-phase teardown looks at the Namespace
 		panic(err)
 	}
 	return s
@@ -180,9 +184,10 @@ func condStr(conds []interface{}) string {
 		s := fmt.Sprintf("%v=%v/%v/%d", m["type"], m["status"], m["reason"], og)
 		if m["type"] == "Available" && m["reason"] == "ProbeFailure" {
 			msg, _ := m["message"].(string)
-			if i := strings.Index(msg, "\""); i >= 0 {
-				if j := strings.Index(msg[i+1:], "\""); j >= 0 {
-					s += "/" + msg[i+1:i+1+j]
+			if strings.HasPrefix(msg, "Phase \"") { // ObjectSet level: the failing phase is named
+				rest := msg[len("Phase \""):]
+				if j := strings.Index(rest, "\""); j >= 0 {
+					s += "/" + rest[:j]
 				}
 			}
 		}
@@ -227,10 +232,10 @@ func errOr(e, ok string) string {
 }
 
 // setEventsStr prints the writes on ObjectSets / ObjectSetPhases issued since log index `from`.
-func (y *sys) setEventsStr(log []*verifstore.Request) string {
+func (y *sys) setEventsStr(log []*verifstore.Request, phases bool) string {
 	var out []string
 	for _, r := range log {
-		if r.DryRun || r.Key.Group != verifphase.PkoGroup {
+		if r.DryRun || r.Key.Group != verifphase.PkoGroup || strings.HasSuffix(r.Key.Kind, "Phase") != phases {
 			continue
 		}
 		switch r.Verb {
@@ -297,6 +302,31 @@ func (y *sys) setStr(u *unstructured.Unstructured) string {
 	return fmt.Sprintf("%s{g=%d,d=%s,f=%s,life=%s,%s}", u.GetName(), u.GetGeneration(), d, fin, life, statusStr(u.Object))
 }
 
+func (y *sys) phaseStr(u *unstructured.Unstructured) string {
+	fin := ""
+	for _, f := range u.GetFinalizers() {
+		if f == "package-operator.run/cached" {
+			fin += "c"
+		} else {
+			fin += "?"
+		}
+	}
+	d := "0"
+	if u.GetDeletionTimestamp() != nil {
+		d = "1"
+	}
+	paused, _, _ := unstructured.NestedBool(u.Object, "spec", "paused")
+	p := "0"
+	if paused {
+		p = "1"
+	}
+	rev, _, _ := unstructured.NestedInt64(u.Object, "spec", "revision")
+	st, _ := u.Object["status"].(map[string]interface{})
+	conds, _ := st["conditions"].([]interface{})
+	co, _ := st["controllerOf"].([]interface{})
+	return fmt.Sprintf("%s{g=%d,d=%s,f=%s,paused=%s,rev=%d conds=[%s] co=[%s]}", u.GetName(), u.GetGeneration(), d, fin, p, rev, condStr(conds), controllerOfStr(co))
+}
+
 func (y *sys) applySetEnv(e SetEnv) {
 	k := y.setKey(e.Set)
 	switch e.Op {
@@ -330,6 +360,9 @@ func Exec(scn Scn) string {
 	for _, sp := range scn.Sets {
 		y.putSet(sp)
 	}
+	nsObj := &unstructured.Unstructured{Object: map[string]interface{}{"apiVersion": "v1", "kind": "Namespace"}}
+	nsObj.SetName(NS)
+	y.env.Store.PutQuiet(nsObj)
 	for _, o := range scn.Store {
 		y.env.Store.Put(o.BuildFor(y.ns()))
 	}
@@ -359,7 +392,8 @@ func Exec(scn Scn) string {
 						}
 					}
 					mw++
-				} else {
+				} else if strings.HasSuffix(r.Key.Kind, "ObjectSet") {
+					// third-party edits of the ObjectSet are scheduled relative to writes on ObjectSets
 					for _, e := range st.SetEnv {
 						if e.At == sw {
 							y.applySetEnv(e)
@@ -384,7 +418,7 @@ func Exec(scn Scn) string {
 				r = "requeue"
 			}
 			log := y.env.Store.Log[from:]
-			outs = append(outs, "R "+r+" | "+verifphase.EventsStr(managedOnly(log))+" | "+y.setEventsStr(log))
+			outs = append(outs, "R "+r+" | "+verifphase.EventsStr(managedOnly(log))+" | "+y.setEventsStr(log, false)+" | "+y.setEventsStr(log, true))
 		case "env":
 			for _, e := range st.Env {
 				verifphase.ApplyEnv(y.env, e)
@@ -418,9 +452,9 @@ func Exec(scn Scn) string {
 					if st.Obj < len(objs) {
 						o := objs[st.Obj].(map[string]interface{})
 						_ = unstructured.SetNestedField(o, st.Value, "object", "spec", "v")
+						_ = unstructured.SetNestedSlice(u.Object, phases, "spec", "phases")
 					}
 				}
-				_ = unstructured.SetNestedSlice(u.Object, phases, "spec", "phases")
 			})
 			outs = append(outs, "-")
 		case "restart":
@@ -438,6 +472,8 @@ func Exec(scn Scn) string {
 		case verifphase.PkoGroup:
 			if strings.HasSuffix(u.GetKind(), "ObjectSet") {
 				sets = append(sets, y.setStr(u))
+			} else if strings.HasSuffix(u.GetKind(), "ObjectSetPhase") {
+				sets = append(sets, y.phaseStr(u))
 			} else {
 				sets = append(sets, u.GetKind()+"/"+u.GetName())
 			}
